@@ -114,7 +114,8 @@ theorem sphere_uvFaces_eq (a b : Nat) (ha : 1 ≤ a) :
     sphere_uvFaces a b = (List.range b).flatMap (fun i => [sphFace a b (.top i), sphFace a b (.bot i)]) ++
       (List.range (a - 1)).flatMap (fun j => (List.range b).flatMap (fun i => [sphFace a b (.quad j i)])) := by
   have hS : sphere_uvNVerts a b - 1 = a * b + 1 := by rw [sphere_uv_nverts]; rfl
-  simp [sphere_uvFaces, sphFace, hS, Nat.mul_comm b (a - 1)]
+  rw [sphere_uvFaces_norm]
+  simp [sphere_uvFacesCanon, sphFace, hS, Nat.mul_comm b (a - 1)]
 
 theorem sphere_closed (a b : Nat) (ha : 1 ≤ a) (hb : 1 ≤ b) (f : SF) (hf : f.ok a b) (p q : Nat)
     (h : (p, q) ∈ sides (sphFace a b f)) : ∃ g : SF, g.ok a b ∧ (q, p) ∈ sides (sphFace a b g) := by
